@@ -108,8 +108,15 @@ def run_unit_impl(c):
 
     s = unit_sampler(c)
     n = c["n"]
-    pop = SMCSamples(x=np.zeros((n, 1)), log_likelihood=np.asarray(c["ll"]), log_prior=np.asarray(c["lp"]),
+    first = np.asarray(c["ll"]) + (np.arange(n) % 3 - 1.0) * 2.5 if c.get("touch") else np.asarray(c["ll"])
+    pop = SMCSamples(x=np.zeros((n, 1)), log_likelihood=first, log_prior=np.asarray(c["lp"]),
                      log_q=np.asarray(c["lq"]), beta=c["beta"])
+    if c.get("touch"):
+        # the library's own idiom (initial draw, mutate): build the population, look at it, THEN assign the log-likelihood column - the
+        # temperature search uses the values present when it runs
+        with np.errstate(all="ignore"):
+            pop.log_weights(1.0)
+        pop.log_likelihood = pop.array_to_namespace(np.asarray(c["ll"]))
     step, ms = unit_args(c)
     out = {}
     with np.errstate(all="ignore"):
@@ -262,6 +269,10 @@ def corpus_runs():
                     "like_cut": 0.4, "mode": "hard_cut", **extra})
     # BOTH an explicit minimum step and a step cap, with min_step * max_n_steps < 1 and a population that is still ESS-limited when the
     # cap is reached: the run stops at the cap (below temperature 1), every step still at least the minimum step
+    # a FIXED schedule given a minimum step as well (an option of the adaptive schedule): still exactly n iterations on the k/n grid
+    for j, (n_, ms) in enumerate(((10, 0.25), (16, 0.1), (4, 0.3), (7, 0.5))):
+        out.append({"seed": 350 + j, "n_samples": 12, "dims": 2, "like_width": 0.4, "kernel_steps": 1, "sampler": "minipcn_smc",
+                    "adaptive": False, "n_steps": n_, "min_step": ms, "mode": "fixed_with_floor"})
     for j, (ms, cap) in enumerate(((0.01, 2), (0.05, 3), (1e-3, 1), (0.1, 4), (0.02, 5))):
         out.append({"seed": 300 + j, "n_samples": 12, "dims": 3, "like_width": 0.05, "kernel_steps": 1, "sampler": "minipcn_smc",
                     "min_step": ms, "max_n_steps": cap, "target_efficiency": 0.95, "mode": "floor_and_cap"})
@@ -382,7 +393,7 @@ def check_runs(chk, cfgs):
         if not full["adaptive"] and len(betas) != full["n_steps"]:
             chk.fail("fixed schedule of n steps performs exactly n iterations", case,
                      f"n_steps={full['n_steps']} but {len(betas)} iterations", {**sig, "clause": "fixed_count"})
-        if full["min_step"] is not None:
+        if full["min_step"] is not None and full["adaptive"]:      # (a fixed schedule ignores the floor by design: it is an option of the adaptive one)
             for b1, b2 in zip([0.0] + betas, betas):
                 if b2 < min(1.0, b1 + full["min_step"]) - 1e-15:
                     chk.fail("minimum step honoured", case, f"{b1} -> {b2}", {**sig, "clause": "floor"})
@@ -464,6 +475,35 @@ def check_reuse_after_resume(chk, quick):
                      {**sig, "clause": "floor", "reuse": True})
 
 
+def check_resume_at_cap(chk, quick):
+    """a run with a step cap only (adaptive minimum step) that used ALL its iterations, resumed with the same options from the checkpoint
+    taken at the cap (the forced final one included): the resumed call returns, with the same schedule"""
+    for j in range(4 if quick else 16):
+        cfg = {"seed": 900 + j, "n_samples": 12, "dims": 3, "like_width": 0.05, "kernel_steps": 1, "target_efficiency": 0.95,
+               "max_n_steps": int((2, 3, 4, 6)[j % 4]), "checkpoint_every": (1, 2)[j % 2]}
+        case = {"level": "resume_at_cap", "cfg": cfg}
+        chk.count("resume_at_cap")
+        chk.case(None, json.dumps(case))
+        r1 = smcrun.run_smc(cfg, record_checkpoints=True, watchdog_iters=250)
+        if r1["status"] != "done" or not r1["ckpts"]:
+            continue
+        b1 = [float(b) for b in r1["sampler"].history.beta]
+        for which in (-1, -2):
+            if len(r1["ckpts"]) < -which:
+                continue
+            ck = r1["ckpts"][which]
+            r2 = smcrun.resume_smc(cfg, ck["bytes"], watchdog_iters=250)
+            sig = {"level": "run", "mode": "resume_at_cap"}
+            c2 = dict(case, resumed_from_iteration=ck["iteration"], iterations_of_the_run=len(b1))
+            if r2["status"] != "done":
+                chk.fail("no valid option combination raises", c2, f"resumed from the checkpoint of iteration {ck['iteration']} (cap {cfg['max_n_steps']}): {r2.get('exc')!r}",
+                         {**sig, "clause": "raise", "exc": type(r2.get("exc")).__name__})
+                continue
+            b2 = [float(b) for b in r2["sampler"].history.beta]
+            if b2 != b1:
+                chk.fail("step cap honoured", c2, f"schedule after the resume {b2} differs from the run's {b1}", {**sig, "clause": "cap"})
+
+
 def ref_eff(pop, b0, t):
     lw = pop["ll"] + pop["lp"] - pop["lq"]
     a = (t - b0) * lw
@@ -530,6 +570,7 @@ def run(chk: core.Check):
     runs = corpus_runs() + [gen_run(r, i, chk.tier) for i in range(40 if quick else 600)]
     check_runs(chk, runs)
     check_reuse_after_resume(chk, quick)
+    check_resume_at_cap(chk, quick)
 
     def search():
         sub = core.Check(chk.pid, chk.tier, chk.seed)
